@@ -456,8 +456,12 @@ def wait_for_memory(need_gb=16.0, max_wait=3600):
         time.sleep(random.random() + min(10.0, 1.5 * len(ACTIVE)))
 
 
+QUICK_TIMEOUT = int(os.environ.get("VERIF_QUICK_TIMEOUT", "1200"))
+
+
 class Runner:
-    def __init__(self, scratch, ds, jobs):
+    def __init__(self, scratch, ds, jobs, tier="quick"):
+        self.tier = tier
         self.scratch = scratch
         self.ds = ds
         self.jobs = jobs
@@ -488,6 +492,9 @@ class Runner:
         cmd = "cargo kani --harness %s --exact --target-dir %s %s" % (h.modpath, tdir, z)
         if os.environ.get("VERIF_TIMEOUT_CAP"):  # timing surveys only
             h.timeout = min(h.timeout, int(os.environ["VERIF_TIMEOUT_CAP"]))
+        elif self.tier == "quick":
+            # the quick tier is the check run on every change: no single harness may hold it up
+            h.timeout = min(h.timeout, QUICK_TIMEOUT)
         rc, timed_out, out, wall = run_cmd(cmd, self.ds, h.timeout, log)
         tries = 0
         while "[driver] gave way" in out and tries < 4:
@@ -709,6 +716,8 @@ BASE_ASSUMPTIONS = [
     "Kani's model of allocation (never fails) and of Vec/Box",
     "specifications and representation invariants written in /verif/harness are the oracle",
     "every #[kani::stub] listed per harness is part of the claim",
+    "overlay copy = /repo source with #[cfg(test)] modules compiled out, harness modules attached, and closures "
+    "that ignore a failed read's error (`|_| ..`) forgetting it instead of dropping it (DESIGN 2.3)",
 ]
 
 
@@ -796,7 +805,7 @@ def do_check(prop, tier, seed, only, jobs, scratch, ds, srcdigest, hs_all):
     # longest first (by declared time-out), seed breaks ties
     hs.sort(key=lambda h: (-h.timeout, rnd.random()))
     jobs = max(1, min(jobs, len(hs)))
-    runner = Runner(scratch, ds, jobs)
+    runner = Runner(scratch, ds, jobs, tier)
     known = load_known()
     known_keys = {k["key"]: k for k in known.get("known", [])}
     results = []
@@ -855,7 +864,8 @@ def do_check(prop, tier, seed, only, jobs, scratch, ds, srcdigest, hs_all):
     for k in sorted(set(known_hit)):
         print("KNOWN-FINDING: property=%s %s" % (prop, known_keys[k].get("what", k)))
     wall = time.time() - t0
-    if prop != "ALL":  # ALL = timing survey over every harness, not a property check
+    partial = only is not None and "VERIF_EVIDENCE_DIR" not in os.environ
+    if prop != "ALL" and not partial:  # ALL = timing survey; --only = a partial run that must not replace the evidence
         write_evidence(prop, tier, seed, results, hs, wall, violations, srcdigest, BASE_ASSUMPTIONS)
     held = len([r for r in results if r["class"] == "held"])
     print("SUMMARY property=%s tier=%s harnesses=%d held=%d violations=%d inconclusive=%d wall=%.0fs" % (
